@@ -254,3 +254,33 @@ func init() {
 		}
 	}
 }
+
+func init() {
+	dumpers["normconsts"] = func(p *Prog, m *Model) {
+		// FN=linux.normalizeIPTables
+		fn := p.Funcs[os.Getenv("FN")]
+		if fn == nil {
+			fmt.Println("not found")
+			return
+		}
+		fmt.Printf("%s\tPROPS\t%s\tREASON\n", os.Getenv("FN"), strings.Join(normaliserConsts(fn), " | "))
+	}
+}
+
+func init() {
+	dumpers["siderows"] = func(p *Prog, m *Model) {
+		// PKG=nsx,panos -> TSV rows for tables/sides_audit.tsv
+		pk := map[string]bool{}
+		for _, s := range strings.Split(os.Getenv("PKG"), ",") {
+			pk[s] = true
+		}
+		for _, fn := range allModFuncs(p) {
+			if !pk[pkgOfFunc(fn)] || fn.Synthetic != "" {
+				continue
+			}
+			for _, s := range sideSitesOf(p, fn) {
+				fmt.Printf("%s\t%s\t%s\tPROPS\tREASON\t# %s\n", fnDisplay(fn), s.Name, s.Sig, p.ipos(s.In))
+			}
+		}
+	}
+}
